@@ -101,10 +101,10 @@ theorem kidsToKvs_append (a b : List Xml) : kidsToKvs (a ++ b) = kidsToKvs a ++ 
   | nil => simp [kidsToKvs]
   | cons x xs ih => simp [kidsToKvs, ih]
 
-theorem itemToXml_tag (k : Text) (d : Detail) : (itemToXml k d).tag = k := by
+theorem itemToXml_tag (k : Text) (d : Detail) : (itemToXml EmptyTest.isNone k d).tag = k := by
   cases d <;> simp [itemToXml, Xml.tag]
 
-theorem entryToXml_ne_nil (k : Text) (d : Detail) : ∃ x xs, entryToXml k d = x :: xs := by
+theorem entryToXml_ne_nil (k : Text) (d : Detail) : ∃ x xs, entryToXml EmptyTest.isNone k d = x :: xs := by
   cases d with
   | null => exact ⟨_, _, by simp only [entryToXml]; rfl⟩
   | leaf t => exact ⟨_, _, by simp only [entryToXml]; rfl⟩
@@ -113,14 +113,15 @@ theorem entryToXml_ne_nil (k : Text) (d : Detail) : ∃ x xs, entryToXml k d = x
     cases items with
     | nil => exact ⟨_, _, by simp only [entryToXml]; rfl⟩
     | cons i is => exact ⟨_, _, by simp only [entryToXml, itemsToXml]; rfl⟩
+  | scalar t fl => exact ⟨.elem k [] t [], [], by simp [entryToXml]⟩
 
 theorem kvsToXml_cons_ne_nil (k : Text) (d : Detail) (rest : List (Text × Detail)) :
-    ∃ x xs, kvsToXml ((k, d) :: rest) = x :: xs := by
+    ∃ x xs, kvsToXml EmptyTest.isNone ((k, d) :: rest) = x :: xs := by
   obtain ⟨x, xs, h⟩ := entryToXml_ne_nil k d
-  exact ⟨x, xs ++ kvsToXml rest, by simp [kvsToXml, h]⟩
+  exact ⟨x, xs ++ kvsToXml EmptyTest.isNone rest, by simp [kvsToXml, h]⟩
 
 mutual
-theorem xmlToDetail_itemToXml (k : Text) : ∀ d, xmlToDetail (itemToXml k d) = normItem d
+theorem xmlToDetail_itemToXml (k : Text) : ∀ d, xmlToDetail (itemToXml EmptyTest.isNone k d) = normItem d
   | .null => by simp [itemToXml, xmlToDetail, normItem]
   | .leaf t => by simp [itemToXml, xmlToDetail, normItem]
   | .node [] => by simp [itemToXml, kvsToXml, xmlToDetail, normItem]
@@ -131,10 +132,11 @@ theorem xmlToDetail_itemToXml (k : Text) : ∀ d, xmlToDetail (itemToXml k d) = 
       simp only [xmlToDetail, normItem]
       rw [← hx, h]
   | .list _ => by simp [itemToXml, xmlToDetail, normItem]
-theorem kidsToKvs_itemsToXml (k : Text) : ∀ is, kidsToKvs (itemsToXml k is) = normItems k is
+  | .scalar t fl => by simp [itemToXml, xmlToDetail, normItem]
+theorem kidsToKvs_itemsToXml (k : Text) : ∀ is, kidsToKvs (itemsToXml EmptyTest.isNone k is) = normItems k is
   | [] => by simp [itemsToXml, kidsToKvs, normItems]
   | i :: is => by simp [itemsToXml, kidsToKvs, normItems, xmlToDetail_itemToXml k i, kidsToKvs_itemsToXml k is, itemToXml_tag]
-theorem kidsToKvs_entryToXml (k : Text) : ∀ d, kidsToKvs (entryToXml k d) = normEntry k d
+theorem kidsToKvs_entryToXml (k : Text) : ∀ d, kidsToKvs (entryToXml EmptyTest.isNone k d) = normEntry k d
   | .null => by simp [entryToXml, kidsToKvs, xmlToDetail, normEntry, Xml.tag]
   | .leaf t => by simp [entryToXml, kidsToKvs, xmlToDetail, normEntry, Xml.tag]
   | .node [] => by simp [entryToXml, kvsToXml, kidsToKvs, xmlToDetail, normEntry, Xml.tag]
@@ -144,7 +146,8 @@ theorem kidsToKvs_entryToXml (k : Text) : ∀ d, kidsToKvs (entryToXml k d) = no
       simp [entryToXml, kidsToKvs, normEntry, Xml.tag, h]
   | .list [] => by simp [entryToXml, kidsToKvs, xmlToDetail, normEntry, Xml.tag]
   | .list (i :: is) => by simp only [entryToXml, normEntry]; exact kidsToKvs_itemsToXml k (i :: is)
-theorem kidsToKvs_kvsToXml : ∀ kvs, kidsToKvs (kvsToXml kvs) = normKvs kvs
+  | .scalar t fl => by simp [entryToXml, kidsToKvs, xmlToDetail, normEntry, Xml.tag]
+theorem kidsToKvs_kvsToXml : ∀ kvs, kidsToKvs (kvsToXml EmptyTest.isNone kvs) = normKvs kvs
   | [] => by simp [kvsToXml, kidsToKvs, normKvs]
   | (k, d) :: rest => by simp [kvsToXml, normKvs, kidsToKvs_append, kidsToKvs_entryToXml k d, kidsToKvs_kvsToXml rest]
 end
@@ -161,6 +164,7 @@ theorem normEntry_of_safe (k : Text) : ∀ d : Detail, d.xmlSafe = true → norm
       simp only [normEntry]
       rw [normKvs_of_safe _ h]
   | .list _, h => by simp [Detail.xmlSafe] at h
+  | .scalar _ _, h => by simp [Detail.xmlSafe] at h
 theorem normKvs_of_safe : ∀ kvs, kvsSafe kvs = true → normKvs kvs = kvs
   | [], _ => by simp [normKvs]
   | (k, d) :: rest, h => by
@@ -183,6 +187,7 @@ theorem normEntry_ne_nil (k : Text) (d : Detail) : ∃ x xs, normEntry k d = x :
     cases items with
     | nil => exact ⟨_, _, by simp only [normEntry]; rfl⟩
     | cons i is => exact ⟨_, _, by simp only [normEntry, normItems]; rfl⟩
+  | scalar t fl => exact ⟨_, _, by simp only [normEntry]; rfl⟩
 
 theorem normKvs_cons_ne_nil (k : Text) (d : Detail) (rest : List (Text × Detail)) :
     ∃ x xs, normKvs ((k, d) :: rest) = x :: xs := by
@@ -202,6 +207,7 @@ theorem normEntry_normScalar (k : Text) : ∀ d, normEntry k (normScalar d) = [(
       simp only [normEntry]
       rw [h]
   | .list _ => by simp [normScalar, normEntry]
+  | .scalar t fl => by by_cases h : t = [] <;> simp [normScalar, normEntry, h]
 theorem normEntry_normItem (k : Text) : ∀ d, normEntry k (normItem d) = [(k, normItem d)]
   | .null => by
       have : (T "None" = []) = False := by decide
@@ -216,6 +222,7 @@ theorem normEntry_normItem (k : Text) : ∀ d, normEntry k (normItem d) = [(k, n
       simp only [normEntry]
       rw [h]
   | .list _ => by simp [normItem, normEntry]
+  | .scalar t fl => by by_cases h : t = [] <;> simp [normItem, normEntry, h]
 theorem normKvs_normItems (k : Text) : ∀ is, normKvs (normItems k is) = normItems k is
   | [] => by simp [normItems, normKvs]
   | i :: is => by simp [normItems, normKvs, normEntry_normItem k i, normKvs_normItems k is]
@@ -233,6 +240,7 @@ theorem normKvs_normEntry (k : Text) : ∀ d, normKvs (normEntry k d) = normEntr
       rw [h]; simp [normKvs]
   | .list [] => by simp [normEntry, normKvs]
   | .list (i :: is) => by simp only [normEntry]; exact normKvs_normItems k (i :: is)
+  | .scalar t fl => by by_cases h : t = [] <;> simp [normEntry, normKvs, h]
 /-- the reading is a normal form: normalising twice changes nothing -/
 theorem normKvs_idem : ∀ kvs, normKvs (normKvs kvs) = normKvs kvs
   | [] => by simp [normKvs]
@@ -247,6 +255,7 @@ theorem docToDetail_detailToDoc : ∀ d, docToDetail (detailToDoc d) = d
   | .leaf t => by simp [detailToDoc, docToDetail]
   | .node kvs => by simp [detailToDoc, docToDetail, docKvs_kvsToDoc kvs]
   | .list items => by simp [detailToDoc, docToDetail, docItems_itemsToDoc items]
+  | .scalar t fl => by simp [detailToDoc, docToDetail]
 theorem docKvs_kvsToDoc : ∀ kvs, docKvs (kvsToDoc kvs) = kvs
   | [] => by simp [kvsToDoc, docKvs]
   | (k, d) :: rest => by simp [kvsToDoc, docKvs, docToDetail_detailToDoc d, docKvs_kvsToDoc rest]
@@ -271,7 +280,7 @@ theorem findTag_membersXml (t : Text) (ms : List (Text × Text)) (h : ∀ m ∈ 
     simp [membersXml, findTag, leafElem, Xml.tag, hk, ih (fun m hm => h m (by simp [hm]))]
 
 /-! ### SOAP 1.1 -/
-theorem xmlToFault11_faultToXml11 (F : Facts09) (hp : ':' ∉ F.env11Prefix) (f : FaultV)
+theorem xmlToFault11_faultToXml11 (F : Facts09) (hp : ':' ∉ F.env11Prefix) (he : F.emptyTest = .isNone) (f : FaultV)
     (hm : ∀ m ∈ f.members, m.1 ≠ T "detail") :
     xmlToFault11 (faultToXml11 F f) =
       some { code := f.code, str := f.str, actor := f.actor, detail := normTop11 f.detail, lang := T "en" } := by
@@ -285,7 +294,7 @@ theorem xmlToFault11_faultToXml11 (F : Facts09) (hp : ':' ∉ F.env11Prefix) (f 
   have hmem := findTag_membersXml (T "detail") members hm
   rcases detail with _ | _ | ⟨kv, rest⟩ <;>
     simp [xmlToFault11, faultToXml11, Xml.tag, Xml.kids, Xml.text, childText, findTag, leafElem, detail11,
-      e1, e2, e3, e4, e5, e6, localPart_prefixed _ hp, normTop11, kidsToKvs_kvsToXml, hmem]
+      e1, e2, e3, e4, e5, e6, localPart_prefixed _ hp, normTop11, kidsToKvs_kvsToXml, hmem, he]
 
 theorem unwrapEnvelope_envelope (ns : Text) (x : Xml) (rest : List Xml) :
     unwrapEnvelope ns (envelope ns (x :: rest)) = some x := by
@@ -310,7 +319,7 @@ theorem subcodesIn_chain (v : Text) (rest : List Text) :
 theorem head12_sender : head12ToCode (T "Sender") = T "Client" := by decide
 theorem head12_receiver : head12ToCode (T "Receiver") = T "Server" := by decide
 
-theorem xmlToFault12_faultToXml12 (F : Facts09) (hp : ':' ∉ F.env12Prefix)
+theorem xmlToFault12_faultToXml12 (F : Facts09) (hp : ':' ∉ F.env12Prefix) (he : F.emptyTest = .isNone)
     (hd : F.soap12Detail = .children) (f : FaultV) (first : Text) (rest : List Text)
     (hs : splitOn '.' f.code = first :: rest) (hf : first = T "Client" ∨ first = T "Server")
     (hm : ∀ m ∈ f.members, m.1 ≠ tDetail12) :
@@ -331,7 +340,7 @@ theorem xmlToFault12_faultToXml12 (F : Facts09) (hp : ':' ∉ F.env12Prefix)
   rcases hf with rfl | rfl <;> rcases detail with _ | kvs <;>
     simp [faultToXml12, hs, codeHead12, detail12, hd, xmlToFault12, Xml.tag, Xml.kids, Xml.text, Xml.attrs,
       childText, findTag, leafElem, valueText, e1, e2, e3, e4, e5, e6, e8, localPart_prefixed _ hp, subcodes,
-      subcodesIn_chain, head12_sender, head12_receiver, kidsToKvs_kvsToXml, hmem]
+      subcodesIn_chain, head12_sender, head12_receiver, kidsToKvs_kvsToXml, hmem, he]
   all_goals exact hcode
 
 
@@ -433,7 +442,7 @@ theorem wsgi_erase (F : Facts09) (t : Text) (h : F.faultString = .constant t) (p
   wsgiOn_erase F t h p p preset u
 
 /-! ### the spyne clients -/
-theorem client11_encode (F : Facts09) (f : FaultV) (hm : ∀ m ∈ f.members, m.1 ≠ T "detail") :
+theorem client11_encode (F : Facts09) (he : F.emptyTest = .isNone) (f : FaultV) (hm : ∀ m ∈ f.members, m.1 ≠ T "detail") :
     client11 (.xml (envelope ns11 [faultToXml11 F f])) =
       some { code := F.env11Prefix ++ ':' :: f.code, str := ctorString f.str, detail := normTop11 f.detail } := by
   have e1 : (T "faultcode" = T "faultstring") = False := by decide
@@ -444,7 +453,7 @@ theorem client11_encode (F : Facts09) (f : FaultV) (hm : ∀ m ∈ f.members, m.
   have hmem := findTag_membersXml (T "detail") members hm
   rcases detail with _ | _ | ⟨kv, rest⟩ <;>
     simp [client11, unwrapEnvelope_envelope, faultToXml11, Xml.tag, Xml.kids, Xml.text, findTag, leafElem, detail11,
-      e1, e3, e5, e6, normTop11, kidsToKvs_kvsToXml, hmem]
+      e1, e3, e5, e6, normTop11, kidsToKvs_kvsToXml, hmem, he]
 
 theorem joinWith_append_head (c : Char) (p q : Text) (rest : List Text) :
     joinWith c ((p ++ q) :: rest) = p ++ joinWith c (q :: rest) := by
@@ -474,7 +483,7 @@ theorem splitOn_free (c : Char) (s : Text) : ∀ x ∈ splitOn c s, c ∉ x := b
           exact ⟨fun e => hne e.symm, this⟩
         · exact ih x (by simp [hx])
 
-theorem client12_encode (F : Facts09) (hn : F.client12Ns = .byNamespace)
+theorem client12_encode (F : Facts09) (he : F.emptyTest = .isNone) (hn : F.client12Ns = .byNamespace)
     (hd : F.soap12Detail = .children) (f : FaultV) (first : Text) (rest : List Text)
     (hs : splitOn '.' f.code = first :: rest) (hf : first = T "Client" ∨ first = T "Server")
     (hm : ∀ m ∈ f.members, m.1 ≠ tDetail12) :
@@ -493,7 +502,7 @@ theorem client12_encode (F : Facts09) (hn : F.client12Ns = .byNamespace)
   simp only at hs
   rcases hf with rfl | rfl <;> rcases detail with _ | kvs <;>
     simp [faultToXml12, hs, codeHead12, detail12, hd, client12, hn, unwrapEnvelope_envelope, Xml.tag, Xml.kids, Xml.text,
-      findTag, leafElem, e1, e3, e5, e6, e8, subcodes, subcodesIn_chain, kidsToKvs_kvsToXml, hmem]
+      findTag, leafElem, e1, e3, e5, e6, e8, subcodes, subcodesIn_chain, kidsToKvs_kvsToXml, hmem, he]
 
 /-- the code a SOAP 1.2 client holds, read in spyne's vocabulary, is the raised code -/
 theorem code12ToSpyne_client (pfx : Text) (hp : ':' ∉ pfx) (code first : Text) (rest : List Text)
